@@ -225,6 +225,52 @@ def seek_trait():
     }, drop_fns=['current_pos', 'seek'])
 
 
+# ---- SeekNum: the trait and its five macro-generated impls (`impl_seek_num! { i32 u32 u64 u128 usize }`, expanded
+# mechanically by vf/extract.py expand_macro).  A wrapper position (block, byte) with 1 <= byte <= bs denotes byte offset
+# block * bs - (bs - byte); a requested offset p is cut into block = p / bs, byte = p % bs.
+SN_VAL = 'T::cval(block) * (bs as int) - ((bs - byte) as int)'
+
+
+def seeknum_trait():
+    return Sel('trait SeekNum', members='''
+    spec fn sn_val(self) -> int;
+    spec fn sn_fits(v: int) -> bool;
+''', fns={
+        'from_block_byte': FnC(ret='r', props=P10, requires=['1 <= byte <= bs'], ensures=[
+            # C10: a reported position is exact -- never a truncated value
+            ('exact', P10, 'r is Ok ==> r->Ok_0.sn_val() == ' + SN_VAL),
+            # an error only when the start of the next block or the position itself is not representable
+            ('err_only_unrepresentable', P10, 'r is Err ==> !Self::sn_fits(T::cval(block) * (bs as int)) || !Self::sn_fits(' + SN_VAL + ')')]),
+        'into_block_byte': FnC(ret='r', props=P10, requires=['bs >= 1'], ensures=[
+            ('cut', P10, 'r is Ok && self.sn_val() >= 0 ==> T::cval(r->Ok_0.0) == self.sn_val() / (bs as int) && r->Ok_0.1 as int == self.sn_val() % (bs as int)'),
+            ('err_only_out_of_counter_range', P10, 'r is Err ==> self.sn_val() < 0 || !T::cfits(self.sn_val() / (bs as int))')]),
+    })
+
+
+def seeknum_impl(t):
+    return Sel('impl SeekNum for ' + t, members='''
+    open spec fn sn_val(self) -> int { self as int }
+    open spec fn sn_fits(v: int) -> bool { %(t)s::MIN <= v <= %(t)s::MAX }
+''' % {'t': t}, fns={
+        'from_block_byte': FnC(props=P10, inherits=True, stmts={'0': '''
+        let ghost cv = T::cval(block);
+        proof {
+            T::conv_laws();
+            let b = block_size as int;
+            assert(cv > %(t)s::MAX && b >= 1 ==> cv * b > %(t)s::MAX) by (nonlinear_arith);
+            assert(cv >= 0 && b >= 1 ==> cv * b >= 0) by (nonlinear_arith);
+        }
+''' % {'t': t}}, closures={1: '''-> (rc: Option<%(t)s>)
+                ensures rc == (if v as int - rem as int >= %(t)s::MIN { Some((v - rem) as %(t)s) } else { None })''' % {'t': t}}),
+        'into_block_byte': (FnC(props=P10, inherits=True, stmts={'0': '''
+        proof { T::conv_laws(); }
+'''}) if t != 'i32' else FnC(props=P10, inherits=True, external_body=True, kani=('shim_seeknum_i32_into',),
+                      note='this Verus leaves the result of a signed `%` unspecified (probed: `ensures r == a % b` fails for i32), so the body of this one '
+                           'instance stays external_body; BOUNDED stand-in: Kani harness shim_seeknum_i32_into (every i32 position, the three counter '
+                           'types, block sizes 1, 2, 4, .., 128; the symbolic-divisor version did not finish in 20 min)')),
+    })
+
+
 def wrapper_seek():
     return Sel('impl StreamCipherSeek for StreamCipherCoreWrapper', members='''
     open spec fn seek_wf(&self) -> bool { self.wf() }
@@ -349,7 +395,7 @@ def async_trait():
 
 def mods():
     return [
-        Mod('dep_streamapi', 'dep:cipher/src/stream.rs', items=[async_trait(), stream_trait(), seek_trait()], export=True),
+        Mod('dep_streamapi', 'dep:cipher/src/stream.rs', items=[async_trait(), stream_trait(), seek_trait(), seeknum_trait()] + [seeknum_impl(t) for t in ('i32', 'u32', 'u64', 'u128', 'usize')], export=True),
         Mod('dep_wrapper', 'dep:cipher/src/stream/wrapper.rs', items=[
             Sel('struct StreamCipherCoreWrapper'), wrapper_inherent(), wrapper_stream(), wrapper_seek(),
             Sel('impl KeySizeUser for StreamCipherCoreWrapper'), Sel('impl IvSizeUser for StreamCipherCoreWrapper'),
